@@ -52,6 +52,15 @@ Fixpoint parse_ty (fuel : nat) (ts : list tok) {struct fuel} : option (aty * lis
           '(l, r1) <- parse_lt r ;;
           if peek_kw Kmut r1 then '(t, r3) <- parse_ty f (tl r1) ;; Some (TRef true l t, r3)
           else '(t, r3) <- parse_ty f r1 ;; Some (TRef false l t, r3)
+      | P PStar :: r =>
+          if peek_kw Kmut r then '(t, r3) <- parse_ty f (tl r) ;; Some (TRaw true t, r3)
+          else if peek_kw Kconst r then '(t, r3) <- parse_ty f (tl r) ;; Some (TRaw false t, r3)
+          else None
+      | P PLBracket :: r =>
+          '(t, r1) <- parse_ty f r ;;
+          if peek PRBracket r1 then Some (TSlice t, tl r1) else None
+      | KW Kstr :: r => Some (TStr, r)
+      | P PBang :: r => Some (TNever, r)
       | _ => None
       end
   end
@@ -151,7 +160,8 @@ Fixpoint kws_eqb (a b : list kw) : bool :=
 Definition kws_of (l : list (bool * kw)) : list kw := map snd (filter fst l).
 
 Definition sflags_kws (fl : sflags) : list kw :=
-  kws_of [(fl.(sf_upstream), Kupstream); (fl.(sf_fundamental), Kfundamental); (fl.(sf_phantom_data), Kphantom_data)].
+  kws_of [(fl.(sf_upstream), Kupstream); (fl.(sf_fundamental), Kfundamental); (fl.(sf_phantom_data), Kphantom_data);
+          (fl.(sf_one_zst), Kone_zst)].
 Definition tflags_kws (fl : tflags) : list kw :=
   kws_of [(fl.(tf_auto), Kauto); (fl.(tf_marker), Kmarker); (fl.(tf_upstream), Kupstream);
           (fl.(tf_fundamental), Kfundamental); (fl.(tf_non_enumerable), Knon_enumerable);
@@ -179,7 +189,7 @@ Definition expect_braces (ts : list tok) : option (list tok) :=
 
 Definition sflags_of (at_ : list kw) : sflags :=
   {| sf_upstream := has_kw Kupstream at_; sf_fundamental := has_kw Kfundamental at_;
-     sf_phantom_data := has_kw Kphantom_data at_ |}.
+     sf_phantom_data := has_kw Kphantom_data at_; sf_one_zst := has_kw Kone_zst at_ |}.
 Definition tflags_of (at_ : list kw) : tflags :=
   {| tf_auto := has_kw Kauto at_; tf_marker := has_kw Kmarker at_; tf_upstream := has_kw Kupstream at_;
      tf_fundamental := has_kw Kfundamental at_; tf_non_enumerable := has_kw Knon_enumerable at_;
@@ -193,6 +203,33 @@ Definition parse_struct (fuel : nat) (at_ : list kw) (name : N) (r : list tok) :
     if peek PLBrace r2 then
       if peek PRBrace (tl r2) then Some (IStruct name ps fl [] wcs, tl (tl r2))
       else '(fs, r4) <- parse_fields fuel fuel 0 (tl r2) ;; Some (IStruct name ps fl fs wcs, r4)
+    else None
+  else None.
+
+(** [variant_i { fields } , ... }] *)
+Fixpoint parse_variants (n fuel i : nat) (ts : list tok) : option (list (list aty) * list tok) :=
+  match n with
+  | O => None
+  | S n' =>
+      if peek PRBrace ts then Some ([], tl ts)
+      else match ts with
+           | VARIANT j :: r =>
+               if (Nat.eqb j i && peek PLBrace r)%bool then
+                 '(fs, r1) <- (if peek PRBrace (tl r) then Some ([], tl (tl r)) else parse_fields fuel fuel 0 (tl r)) ;;
+                 if peek PComma r1 then '(l, r2) <- parse_variants n' fuel (S i) (tl r1) ;; Some (fs :: l, r2)
+                 else None
+               else None
+           | _ => None
+           end
+  end.
+
+Definition parse_enum (fuel : nat) (at_ : list kw) (name : N) (r : list tok) : option (aitem * list tok) :=
+  let fl := sflags_of at_ in
+  if kws_eqb (sflags_kws fl) at_ then
+    '(ps, r1) <- parse_params fuel 1 0 r ;;
+    '(wcs, r2) <- parse_where fuel 2 r1 ;;
+    if peek PLBrace r2 then
+      '(vs, r3) <- parse_variants fuel fuel 0 (tl r2) ;; Some (IEnum name ps fl vs wcs, r3)
     else None
   else None.
 
@@ -225,6 +262,7 @@ Definition parse_impl (fuel : nat) (at_ : list kw) (r : list tok) : option (aite
 Definition parse_item (fuel : nat) (ts : list tok) : option (aitem * list tok) :=
   match snd (parse_attrs ts) with
   | KW Kstruct :: ID name :: r => parse_struct fuel (fst (parse_attrs ts)) name r
+  | KW Kenum :: ID name :: r => parse_enum fuel (fst (parse_attrs ts)) name r
   | KW Ktrait :: ID name :: r => parse_trait fuel (fst (parse_attrs ts)) name r
   | KW Kimpl :: r => parse_impl fuel (fst (parse_attrs ts)) r
   | _ => None
@@ -257,6 +295,7 @@ Fixpoint headers (struct_ : bool) (i : nat) (a : ast) : list header :=
   match a with
   | [] => []
   | IStruct n ps _ _ _ :: r => (if struct_ then [{| h_name := n; h_id := i; h_kinds := ps |}] else []) ++ headers struct_ (S i) r
+  | IEnum n ps _ _ _ :: r => (if struct_ then [{| h_name := n; h_id := i; h_kinds := ps |}] else []) ++ headers struct_ (S i) r
   | ITrait n ps _ _ :: r => (if struct_ then [] else [{| h_name := n; h_id := i; h_kinds := ps |}]) ++ headers struct_ (S i) r
   | IImpl _ _ _ _ _ _ _ :: r => headers struct_ (S i) r
   end.
@@ -325,6 +364,10 @@ Section Resolve.
     | TScalar s => Some (TScalar s)
     | TTuple ts => 'ts' <- omap (r_ty scopes) ts ;; Some (TTuple ts')
     | TRef m l t => 'l' <- r_lt scopes l ;; 't' <- r_ty scopes t ;; Some (TRef m l' t')
+    | TRaw m t => 't' <- r_ty scopes t ;; Some (TRaw m t')
+    | TSlice t => 't' <- r_ty scopes t ;; Some (TSlice t')
+    | TStr => Some TStr
+    | TNever => Some TNever
     end
   with r_garg (scopes : list (list kind)) (a : agarg) {struct a} : option igarg :=
     match a with
@@ -356,6 +399,10 @@ Definition r_item (structs traits : list header) (it : aitem) : option iitem :=
       'fs <- omap (r_ty structs false [ps]) fields ;;
       'ws <- omap (r_qwc structs traits false [ps]) wcs ;;
       Some (IStruct name ps fl fs ws)
+  | IEnum name ps fl variants wcs =>
+      'vs <- omap (omap (r_ty structs false [ps])) variants ;;
+      'ws <- omap (r_qwc structs traits false [ps]) wcs ;;
+      Some (IEnum name ps fl vs ws)
   | ITrait name ps fl wcs =>
       'ws <- omap (r_qwc structs traits true [KTy :: ps]) wcs ;;
       Some (ITrait name ps fl ws)
